@@ -140,7 +140,8 @@ LOG_SETS = [['pyfloat'], ['npf64'], ['pyint'], ['npf32'], ['npi64'], ['a0d'], ['
             ['vec3', 'pyint', 'm23', 'a0d'], ['vec1'], ['m11'], ['npf64', 'vec1'], ['vec3r'], ['m23f'],
             ['pyfloat', 'vec3r', 'm23f', 'vec2'], ['m23x'], ['npf64', 'm23x', 'vec3r']]
 LOG_FMTS = ['.10e', '.3f', '.5g', 'e']
-LOG_FILES = [['\t', 'log.txt'], [';', 'log.txt'], ['\t', 'log.csv'], [';', 'sub/hist.csv']]
+LOG_FILES = [['\t', 'log.txt'], [';', 'log.txt'], ['\t', 'log.csv'], [';', 'sub/hist.csv'], [';', 'history'],
+             ['\t', 'out.cs'], ['|', 'run.v']]
 
 
 CONFIGS_EXT = [c for c in CONFIGS if c[2] == FNAMES[0]]
@@ -154,14 +155,20 @@ def plan(tier, seed):
     u = [UNITS[seed % 3]]
     other = [k for k in VALUE_KINDS if k != 'gen']
     h2, h3 = all_histories(2, OPS), all_histories(3, OPS)
+    # arrays of more than 256 (and more than 1024) values: nel > 256, nnodes > 256, padded 2-D vectors with nnodes > 85
+    large = [(10, 10, 0), (17, 16, 0), (6, 6, 6), (33, 32, 0)]
+    large_level = ('vti/large-grids: arrays beyond 256 and 1024 values, depth 1', large, u, list(FLAT) + ['multi_flat'],
+                   ['gen'], CONFIGS_EXT, [[['new']], [['new'], ['new']]] if False else all_histories(1, ['new']))
     if tier == 'quick':
-        return [('vti/shapes: all small grids x all shapes, depth 2', small, u, vecs, ['gen'], CONFIGS, h2),
+        return [large_level,
+                ('vti/shapes: all small grids x all shapes, depth 2', small, u, vecs, ['gen'], CONFIGS, h2),
                 ('vti/value-kinds: two grids x all shapes x other value kinds, depth 2', DEMO_GRIDS, u, vecs, other,
                  CONFIGS_EXT, h2),
                 ('vti/depth3: two grids x all shapes, depth 3 over {new,same}', DEMO_GRIDS, u, vecs, ['gen'], CONFIGS,
                  all_histories(3, ['new', 'same']))]
     larger = [g for g in grids_upto(6, 3) if g not in small]
-    return [('vti/small-grids x all shapes x {gen,edge}, depth 3', small, u, vecs, ['gen', 'edge'], CONFIGS, h3),
+    return [large_level,
+            ('vti/small-grids x all shapes x {gen,edge}, depth 3', small, u, vecs, ['gen', 'edge'], CONFIGS, h3),
             ('vti/small-grids x all shapes x {int,f32,view}, depth 2', small, u, vecs, ['int', 'f32', 'view'], CONFIGS, h2),
             ('vti/larger-grids x all element sizes x all shapes, depth 2', larger, UNITS, vecs, ['gen'], CONFIGS, h2)]
 
